@@ -1,5 +1,69 @@
 """Kernels of the RPC client shell (_rpc/_client.py, _rpc/_auth.py, _client.py glue): C13, C15, C16."""
-from ..kernels import Kernel as K
+import ast
+
+from ..kernels import Kernel as K, Unsupported, _walk_own
+
+
+def _fraglen_patch(func):
+    """view[8:10] = len(b_pdu).to_bytes(2, byteorder="little")  ->  (lo, hi, width)"""
+    for st in _walk_own(func):
+        if isinstance(st, ast.Assign) and len(st.targets) == 1 and isinstance(st.targets[0], ast.Subscript):
+            t = st.targets[0]
+            if isinstance(t.slice, ast.Slice) and isinstance(st.value, ast.Call) and ast.unparse(st.value.func) == "len(b_pdu).to_bytes":
+                lo, hi = ast.literal_eval(t.slice.lower), ast.literal_eval(t.slice.upper)
+                width = ast.literal_eval(st.value.args[0])
+                order = [k.value for k in st.value.keywords if k.arg == "byteorder"]
+                if not order or ast.literal_eval(order[0]) != "little":
+                    raise Unsupported("frag_len not little endian")
+                return f"({lo}, {hi}, {width})", ast.unparse(st)
+    raise Unsupported("frag_len patch not found")
+
+
+def _wrap_slices(func):
+    """the three slices handed to self._auth.wrap: header = view[:o0], body = view[o0:o1], trailer = view[o1:o1+N] -> N"""
+    want = {"header": "view[:encrypt_offsets[0]].tobytes()", "body": "view[encrypt_offsets[0]:encrypt_offsets[1]].tobytes()"}
+    found = {}
+    n = None
+    call = None
+    for st in _walk_own(func):
+        if isinstance(st, ast.Assign) and len(st.targets) == 1 and isinstance(st.targets[0], ast.Name):
+            nm = st.targets[0].id
+            if nm in want:
+                found[nm] = ast.unparse(st.value)
+            if nm == "sec_trailer":
+                v = st.value
+                src = ast.unparse(v)
+                pre = "view[encrypt_offsets[1]:encrypt_offsets[1] + "
+                if src.startswith(pre) and src.endswith("].tobytes()"):
+                    n = int(src[len(pre):-len("].tobytes()")])
+            if nm == "b_pdu" and isinstance(st.value, ast.Call) and ast.unparse(st.value.func) == "self._auth.wrap":
+                call = ast.unparse(st.value)
+    if found != want or n is None or call != "self._auth.wrap(header, body, sec_trailer, self._sign_header)":
+        raise Unsupported("slices handed to wrap have an unexpected shape")
+    return str(n), "header=view[:o0] body=view[o0:o1] sec_trailer=view[o1:o1+%d]; %s" % (n, call)
+
+
+def _unwrap_slices(func):
+    """_process_response: header=view[:o0], body=view[o0:off], sec_trailer=view[off:off+N], signature=view[off+N:] and the write-back -> N"""
+    want = {
+        "header": "view[:encrypt_offsets[0]].tobytes()",
+        "body": "view[encrypt_offsets[0]:sec_trailer_offset].tobytes()",
+        "sec_trailer": "view[sec_trailer_offset:sec_trailer_offset + 8].tobytes()",
+        "signature": "view[sec_trailer_offset + 8:].tobytes()",
+        "dec_stub": "self._auth.unwrap(header, body, sec_trailer, signature, self._sign_header)",
+    }
+    found = {}
+    back = None
+    for st in _walk_own(func):
+        if isinstance(st, ast.Assign) and len(st.targets) == 1:
+            t = st.targets[0]
+            if isinstance(t, ast.Name) and t.id in want:
+                found[t.id] = ast.unparse(st.value)
+            if isinstance(t, ast.Subscript) and ast.unparse(t) == "response[encrypt_offsets[0]:sec_trailer_offset]":
+                back = ast.unparse(st.value)
+    if found != want or back != "dec_stub":
+        raise Unsupported("slices handed to unwrap have an unexpected shape")
+    return "8", "header=view[:o0] body=view[o0:off] sec_trailer=view[off:off+8] signature=view[off+8:]; response[o0:off] = dec_stub"
 
 Z, B, S = "Z", "bool", "list Z"
 F = "_rpc/_client.py"
@@ -14,6 +78,23 @@ KERNELS = [
       [("context_res_result", Z), ("ContextResultCode_ACCEPTANCE", Z)], B, props=("C15",)),
     K("k_ack_clears_sign", F, "RpcClient._process_bind_ack", ("if", 1),
       [("ack_header_packet_flags", Z), ("PacketFlags_PFC_SUPPORT_HEADER_SIGN", Z)], B, props=("C15",)),
+    # ---- C13: request framing ---------------------------------------------------------------
+    K("k_vt_pad", F, "RpcClient._create_request", ("assign", "padding", 0), [("len_stub_data", Z)], Z, props=("C13",)),
+    K("k_auth_pad", F, "RpcClient._create_request", ("assign", "pad_length", 0), [("len_stub_data", Z)], Z, props=("C13",)),
+    K("k_enc_off", F, "RpcClient._create_request", ("assign", "encrypt_offsets", 1), [("len_stub_data", Z)], "(Z * Z)", props=("C13", "C16")),
+    K("k_alloc_hint", F, "RpcClient._create_request", ("callarg", "Request", 0, "alloc_hint"), [("len_stub_data", Z)], Z, props=("C13",)),
+    K("k_fraglen_patch", F, "RpcClient._prepare_pdu", ("custom", _fraglen_patch), [], "(Z * Z * Z)", props=("C13",)),
+    K("k_wrap_trailer_len", F, "RpcClient._prepare_pdu", ("custom", _wrap_slices), [], Z, props=("C13",)),
+    K("k_strip_test", "_client.py", "_process_get_key_result", ("if", 0),
+      [("response_sec_trailer", B), ("response_sec_trailer_pad_length", Z)], B, props=("C13",)),
+    K("k_strip_len", "_client.py", "_process_get_key_result", ("augassign", "pad_length", 0),
+      [("pad_length", Z), ("response_sec_trailer_pad_length", Z)], Z, props=("C13",)),
+    # ---- C16: sealed replies only --------------------------------------------------------------
+    K("k_unwrap_guard", F, "RpcClient._process_response", ("if", 0),
+      [("self__auth", B), ("encrypt_offsets", B), ("pdu_header_auth_len", Z)], B, props=("C16",)),
+    K("k_sec_trailer_offset", F, "RpcClient._process_response", ("assign", "sec_trailer_offset", 0),
+      [("pdu_header_frag_len", Z), ("pdu_header_auth_len", Z)], Z, props=("C16", "C13")),
+    K("k_unwrap_trailer_len", F, "RpcClient._process_response", ("custom", _unwrap_slices), [], Z, props=("C16",)),
     K("k_bind_result_accepted", "_client.py", "_process_bind_result", ("if", 0),
       [("c_result", Z), ("ContextResultCode_ACCEPTANCE", Z)], B, props=("C15",)),
 ]
